@@ -12,8 +12,8 @@ C10 — executable model of the simulation driver (core Lean only):
       (via update_time_dependent_ad_arrays)                      update_time_dependent_ad_arrays)
   NewtonSolver.solve: the while loop                            `newton`
   run_models.run_time_dependent_model: one pass of the loop     `stepRun`, whole loop `runAll`
-  TimeManager (C09; re-modelled as far as the loop uses it)     `Clock` (abstract), `TM.*`, `tmClock` (faithful),
-                                                                `simpleClock` (tick clock used as an instance)
+  TimeManager                                                   `Clock` (abstract); `tmClock` = C09's verified model
+                                                                (`PorepyVerif.C09.Model`, imported); `simpleClock` (tick clock)
   SolutionStrategy.check_convergence (increment criterion)      `checkConv`
 
 Solution values are elements of an arbitrary type `V` with an addition (the theorems need no law
@@ -21,10 +21,15 @@ of it); the driver instantiates `V := Val` (rationals plus NaN).  The nonlinear 
 nondeterminism (increments and the (converged, diverged) flags of every iteration) is an oracle
 TAPE: one list of `Iter` per Newton solve.
 
-The boundary-value channel `Bc` follows the PROPERTY (repaired behaviour, `Cfg.bcRewind = true`):
-a rejected step undoes the shift that `before_nonlinear_loop` made.  `bcRewind = false` is the code
-as it stands (finding "bc-ts0-after-failed-step").
+The boundary-value channel `Bc`: a rejected step undoes the shift that `before_nonlinear_loop` made
+(`SolutionStrategy._revert_time_dependent_boundary_values`, /repo d442ddefd).
+
+Flags (converged, diverged) = (True, True): the model follows the PROPERTY (`Cfg.divOverrules = true`:
+divergence overrules, the solve fails); `divOverrules = false` is `NewtonSolver.solve` as it stands
+(finding "both-flags-returns-true-without-hooks": `break` on `is_diverged`, no hook, returns True).
 -/
+import PorepyVerif.C09.Model
+
 namespace PorepyVerif.C10
 
 /-! ### storage windows (index 0 first) -/
@@ -52,13 +57,13 @@ def addAt0 {V : Type} [Add V] (inc : V) : List V → List V
   | [] => []
   | a :: l => (a + inc) :: l
 
-/-- lengths of `iterate_indices` / `time_step_indices`, `max_iterations` of the solver, and whether
-    a rejected step rewinds the boundary values (repaired behaviour) -/
+/-- lengths of `iterate_indices` / `time_step_indices`, `max_iterations` of the solver, and whether a
+    diverged flag overrules a converged flag of the same iteration (repaired behaviour) -/
 structure Cfg where
   maxIt : Nat
   nIt : Nat
   nTs : Nat
-  bcRewind : Bool := true
+  divOverrules : Bool := true
 
 /-- variable values: iterate window and time-step window -/
 structure Sol (V : Type) where
@@ -103,7 +108,7 @@ def initBc (t0 : Rat) : Bc := { it := t0, ts := [t0] }
 def beforeLoop (cfg : Cfg) (t : Rat) (b : Bc) : Bc :=
   { it := t, ts := set0 b.it (shiftMax cfg.nTs b.ts) }
 
-/-- repaired `after_nonlinear_failure`: undo the last `beforeLoop` -/
+/-- `_revert_time_dependent_boundary_values` in `after_nonlinear_failure`: undo the last `beforeLoop` -/
 def bcRewind (b : Bc) : Bc :=
   match b.ts with
   | [] => b
@@ -123,7 +128,7 @@ inductive End where
   | converged    -- `after_nonlinear_convergence` called, returns True
   | diverged     -- `break` on `is_diverged`, then `after_nonlinear_failure`
   | maxIter      -- loop condition `num_iteration <= max_iterations` false, then `after_nonlinear_failure`
-  | both         -- flags (True, True): `break` on `is_diverged`, NO hook is called, returns True
+  | both         -- flags (True, True), code as it stands: `break` on `is_diverged`, NO hook is called, returns True
   | outOfTape    -- the tape ended before the loop did (not a behaviour of the code)
   deriving DecidableEq, Repr
 
@@ -146,7 +151,7 @@ def newton {V : Type} [Add V] (cfg : Cfg) : Nat → List (Iter V) → Sol V → 
     if k ≤ cfg.maxIt then
       let s' := afterIteration cfg it.inc s
       let evs := [NEv.iter (k + 1) s', NEv.check it.conv it.div]
-      if it.div then ⟨s', k + 1, if it.conv then .both else .diverged, evs⟩
+      if it.div then ⟨s', k + 1, if it.conv && !cfg.divOverrules then .both else .diverged, evs⟩
       else if it.conv then ⟨s', k + 1, .converged, evs⟩
       else
         let r := newton cfg (k + 1) tape s'
@@ -245,7 +250,7 @@ def stepRun {V C : Type} [Add V] (clk : Clock C) (cfg : Cfg) (r : Run V C) (tape
       match clk.retry c1 with
       | .ok c2 =>
         let s2 := resetIterate res.sol
-        let bc2 := if cfg.bcRewind then bcRewind bc1 else bc1
+        let bc2 := bcRewind bc1
         { r with sol := s2, bc := bc2, clock := c2, status := statusOf clk c2, last := .retried,
                  log := log1 ++ [{ tag := "fail", k := res.k, sol := s2, bc := bc2, clock := c2 },
                                  { tag := "ret", k := res.k, conv := false, sol := s2, bc := bc2, clock := c2 }] }
@@ -262,6 +267,10 @@ def runAll {V C : Type} [Add V] (clk : Clock C) (cfg : Cfg) (r : Run V C) (tapes
 /-- a tape entry never reports converged and diverged at once (the statement's failure patterns:
     a solve converges, or diverges at some iteration, or runs out of iterations) -/
 def TapeOk {V : Type} (tape : List (Iter V)) : Prop := ∀ it ∈ tape, ¬(it.conv = true ∧ it.div = true)
+
+/-- no solve on this tape can end with both flags: divergence overrules convergence (repaired solver),
+    or the tape never raises both flags -/
+def NoBoth {V : Type} (cfg : Cfg) (tape : List (Iter V)) : Prop := cfg.divOverrules = true ∨ TapeOk tape
 
 /-- the time-step window that a sequence of accepted solutions (most recent first) leaves behind:
     the `n` most recent, padded with the initial value -/
@@ -333,100 +342,36 @@ def checkConv (tol : Rat) : Val → Bool × Bool
   | .nan => (false, true)
   | .num q => (decide (absR q < tol), false)
 
-/-! ### the time manager (re-modelled from C09: state machine of `compute_time_step`) -/
+/-- `SolutionStrategy.check_convergence` of a nonlinear problem with a finite `nl_divergence_tol` and the
+    default `nl_convergence_tol_res = inf`, on (increment norm, residual norm) — `none` = NaN in the
+    increment: `diverged = residual_norm > div_tol`, `converged = increment_norm < tol` (the residual
+    criterion is vacuous).  Nothing makes the two flags exclusive. -/
+def checkConvRes (tol divTol : Rat) : Option (Rat × Rat) → Bool × Bool
+  | none => (false, true)
+  | some (incNorm, resNorm) => (decide (incNorm < tol), decide (resNorm > divTol))
 
-namespace TM
+/-! ### the time manager: C09's model as a `Clock` -/
 
-def isclose (rtol atol a b : Rat) : Bool := decide (absR (a - b) ≤ atol + rtol * absR b) || decide (a = b)
+def errName : C09.Err → String
+  | .indexError => "IndexError"
+  | _ => "ValueError"
 
-structure Params where
-  schedule : List Rat
-  dtInit : Rat
-  constantDt : Bool
-  dtMin : Rat
-  dtMax : Rat
-  iterLow : Int
-  iterUpp : Int
-  underRelax : Rat
-  overRelax : Rat
-  recompFactor : Rat
-  recompMax : Int
-  rtol : Rat
-  atol : Rat
-
-def Params.timeInit (p : Params) : Rat := p.schedule.headD 0
-def Params.timeFinal (p : Params) : Rat := p.schedule.getLastD 0
-
-structure State where
-  time : Rat
-  dt : Rat
-  timeIndex : Int
-  recompNum : Nat
-  idx : Nat            -- `_scheduled_idx`
-  aboutToHit : Bool    -- `_is_about_to_hit_schedule`
-  deriving DecidableEq, Repr
-
-def init (p : Params) : State :=
-  { time := p.timeInit, dt := p.dtInit, timeIndex := 0, recompNum := 0, idx := 1, aboutToHit := false }
-
-def finalTimeReached (p : Params) (s : State) : Bool :=
-  decide (s.time > p.timeFinal) || isclose p.rtol p.atol s.time p.timeFinal
-
-/-- `increase_time(); increase_time_index()` -/
-def advance (s : State) : State := { s with time := s.time + s.dt, timeIndex := s.timeIndex + 1 }
-
-/-- `_adaptation_based_on_iterations` -/
-def adaptIter (p : Params) (s : State) (it : Int) : State :=
-  let s := { s with recompNum := 0 }
-  if it ≤ p.iterLow then { s with dt := s.dt * p.overRelax }
-  else if it ≥ p.iterUpp then { s with dt := s.dt * p.underRelax }
-  else s
-
-def clampMin (p : Params) (dt : Rat) : Rat := if dt < p.dtMin then p.dtMin else dt
-def clampMax (p : Params) (dt : Rat) : Rat := if dt > p.dtMax then p.dtMax else dt
-
-/-- `_correction_based_on_schedule` on `schedule[_scheduled_idx:]`: (increments of the index, flag, dt);
-    `none` = IndexError at entry -/
-def corrSched (rtol atol t : Rat) (dt : Rat) : List Rat → Option (Nat × Bool × Rat)
-  | [] => none
-  | st :: rest =>
-    if t + dt > st then
-      if isclose rtol atol t st then
-        match corrSched rtol atol t dt rest with
-        | none => some (1, true, dt)
-        | some (n, a, d) => some (n + 1, a, d)
-      else some (1, true, st - t)
-    else some (0, false, dt)
-
-def correct (p : Params) (s : State) : Except String State :=
-  let s2 := { s with dt := clampMax p (clampMin p s.dt) }
-  match corrSched p.rtol p.atol s2.time s2.dt (p.schedule.drop s2.idx) with
-  | none => .error "IndexError"
-  | some (n, a, d) => .ok { s2 with idx := s2.idx + n, aboutToHit := a, dt := d }
-
-/-- `after_nonlinear_convergence`: `if not is_constant: compute_time_step(iterations=k)` -/
-def accept (p : Params) (s : State) (k : Nat) : Except String State :=
-  if p.constantDt then .ok s
-  else if finalTimeReached p s then .ok s
-  else correct p (adaptIter p s (k : Int))
-
-/-- `after_nonlinear_failure`: constant dt raises; else `compute_time_step(recompute_solution=True)` -/
-def retry (p : Params) (s : State) : Except String State :=
-  if p.constantDt then .error "ValueError"
-  else if (s.recompNum : Int) < p.recompMax then
-    if s.dt = p.dtMin then .error "ValueError"
-    else correct p
-      { s with time := s.time - s.dt, timeIndex := s.timeIndex - 1, dt := s.dt * p.recompFactor,
-               recompNum := s.recompNum + 1, idx := if s.aboutToHit then s.idx - 1 else s.idx }
-  else .error "ValueError"
-
-end TM
-
-def tmClock (p : TM.Params) : Clock TM.State :=
-  { final := TM.finalTimeReached p
-    advance := TM.advance
-    accept := TM.accept p
-    retry := TM.retry p
+/-- `increase_time(); increase_time_index()` / `after_nonlinear_convergence` (`if not is_constant:
+    compute_time_step(iterations=k)`) / `after_nonlinear_failure` (constant dt raises, else
+    `compute_time_step(recompute_solution=True)`) on C09's `TM`. -/
+def tmClock (p : C09.Params) : Clock C09.TM :=
+  { final := C09.finalTimeReached p
+    advance := fun s => C09.increaseTimeIndex (C09.increaseTime s)
+    accept := fun s k =>
+      if p.constantDt then .ok s
+      else match C09.computeTimeStep p s (some (k : Int)) false with
+        | (s2, .ok _) => .ok s2
+        | (_, .err e) => .error (errName e)
+    retry := fun s =>
+      if p.constantDt then .error "ValueError"
+      else match C09.computeTimeStep p s none true with
+        | (s2, .ok _) => .ok s2
+        | (_, .err e) => .error (errName e)
     time := fun s => s.time }
 
 end PorepyVerif.C10
